@@ -1044,8 +1044,11 @@ MANIFEST = dict(
         "Necessary (and, for partition invariance, sufficient up to floating point) structural clauses of C18; delta "
         "filter values and floating-point rounding are numerical and not decided. accumulate / store are also interpreted over exact values "
         "(fresh object, 0-2 batches, Bessel on / off, statistics kept / deleted; in-place updates shared between aliases, exact roots): 32 rows "
-        "against the definitions; the symbolic formulas are the fallback."),
+        "against the definitions; the symbolic formulas are the fallback. mean_var_norm is interpreted for stored statistics (a deviation below "
+        "eps is raised to eps), for the input's own statistics, and for the feature axis first, last and negative; feat_deltas for a (2, 3, 4) "
+        "tensor, every time axis and target axis, stacked and concatenated (pad / conv1d are exact leaves): the order-o block is the o-th "
+        "regression along the time axis laid out along the requested axis; the accumulators keep double precision (dtype rule)."),
     level_note="Trusted: python ast; real-number idealisation of double-precision accumulation.",
-    technique="static analysis: additive-homomorphism (monoid) effect rule, rational evaluation of the stored statistics per bessel mode, symbolic exponent-matrix derivation, forwarding completeness, partial evaluation + rank-term comparison; interpretation of the return computation over exact values compared with the recursion for discounts below, at and above one; accumulate / store interpreted the same way (in-place tensor semantics, exact roots) against the definitions",
+    technique="static analysis: additive-homomorphism (monoid) effect rule, rational evaluation of the stored statistics per bessel mode, symbolic exponent-matrix derivation, forwarding completeness, partial evaluation + rank-term comparison; interpretation of the return computation over exact values compared with the recursion for discounts below, at and above one; accumulate / store interpreted the same way (in-place tensor semantics, exact roots) against the definitions; mean_var_norm and feat_deltas layout tables by the same interpretation; accumulator-dtype def-use rule",
     design_ref="DESIGN.md section 4 C18",
 )
